@@ -7,6 +7,7 @@ Test.execute() runs whose phases log through test.logger, a plug logger, get_rec
 loggers; (H/conc) two tests executing concurrently under the cooperative scheduler; (R) MacAddressLogFilter on
 message / argument shapes. The Lean model (Model/Logs.lean) predicts every record; the Lean spec judges them."""
 import logging
+import re
 import os
 import threading
 
@@ -125,6 +126,31 @@ def _run_seq(case):
   return {'ops': ops, 'obs': [(uid, _ids(r)) for uid, r in sorted(recs.items())], 'facts': sorted(set(facts))}
 
 
+def _emit(lg, mid, text):
+  """one message through one of the logging call forms (the level is part of the text: 'L<level>')"""
+  import warnings
+  form = mid % 7
+  if form == 0:
+    lg.info('m#%d ' + text + ' L20', mid)
+  elif form == 1:
+    with warnings.catch_warnings():
+      warnings.simplefilter('ignore')
+      lg.warn('m#%d ' + text + ' L30', mid)      # deprecated alias of warning()
+  elif form == 2:
+    lg.log(25, 'm#%d ' + text + ' L25', mid)
+  elif form == 3:
+    lg.error('m#%d ' + text + ' L40', mid)
+  elif form == 4:
+    lg.warning('m#%d ' + text + ' L30', mid)
+  elif form == 5:
+    lg.critical('m#%d ' + text + ' L50', mid)
+  else:
+    try:
+      raise ValueError('x')
+    except ValueError:
+      lg.exception('m#%d ' + text + ' L40', mid)
+
+
 def _mk_test(tag, n, mids, helper_uid, plug=True):
   """a real test whose phase logs through every kind of logger; mids: iterator of message ids"""
   import openhtf as htf
@@ -144,7 +170,7 @@ def _mk_test(tag, n, mids, helper_uid, plug=True):
         mid = next(mids)
         if kind == 'own':
           events.append((mid, 'own', test.logger.name))
-          test.logger.info('m#%d own', mid)
+          _emit(test.logger, mid, 'own')
         elif kind == 'plug':
           events.append((mid, 'own', None))
           p.hello(mid)
@@ -154,7 +180,7 @@ def _mk_test(tag, n, mids, helper_uid, plug=True):
           lg.warning('m#%d helper', mid)
         elif kind == 'fw':
           events.append((mid, 'fw', FW))
-          logging.getLogger(FW).info('m#%d framework', mid)
+          _emit(logging.getLogger(FW), mid, 'framework')
         else:
           lg = logs.get_record_logger_for(uid + '0').getChild('phase.x')
           events.append((mid, 'other', lg.name))
@@ -179,6 +205,9 @@ def _check_fields(rec, facts, bounds=True):
     if bounds and not (rec.start_time_millis - 2 <= l.timestamp_millis <= rec.end_time_millis + 2):
       facts.append('X:timestamp-outside-the-run')
     want = logging.WARNING if ' helper' in l.message else logging.INFO
+    lv = re.search(r' L(\d+)$', l.message.split('\n')[0])
+    if lv:
+      want = int(lv.group(1))
     if l.level != want:
       facts.append('X:level-wrong')
     if ' own' in l.message and '.phase.' not in l.logger_name:
@@ -468,6 +497,9 @@ def phase(test):
   test.logger.info('m#2 info own')
   logging.getLogger('openhtf.verif.framework').debug('m#3 debug framework')
   logs.get_record_logger_for(list(htf.Test.TEST_INSTANCES)[0]).debug('m#4 debug helper')
+  test.logger.info('m#5 dev aa:bb:cc:dd:ee:ff own')
+  logging.getLogger('openhtf.plugs.verif_driver').info('m#6 dev %s framework', 'aa:bb:cc:dd:ee:ff')
+  logs.get_record_logger_for(list(htf.Test.TEST_INSTANCES)[0]).warning('m#7 dev aa:bb:cc:dd:ee:ff helper')
 t = htf.Test(phase)
 recs = []
 t.add_output_callbacks(recs.append)
@@ -503,7 +535,11 @@ def _run_verbosity(case):
     return {'ops': [], 'obs': [], 'facts': ['X:verbosity-run-failed:' + p.stderr.decode('utf-8', 'replace')[-200:].replace(' ', '_').replace('\n', '|')]}
   got = json.loads(line[0][7:])
   want = ['m#1 debug own', 'm#2 info own', 'm#3 debug framework', 'm#4 debug helper']
-  facts = [] if got == want else ['X:record-misses-messages-under-cli-verbosity-%d:got-%d-of-4' % (case['v'], len(got))]
+  facts = [] if got[:4] == want and len(got) == 7 else [
+      'X:record-misses-messages-under-cli-verbosity-%d:got-%d-of-7' % (case['v'], len(got))]
+  for m in got[4:]:
+    if 'dd:ee:ff' in m or 'aa:bb:cc:<REDACTED>' not in m:
+      facts.append('X:mac-address-not-redacted-in-the-record-under-cli-verbosity-%d:%s' % (case['v'], m.split(' ')[-1]))
   return {'ops': [], 'obs': [], 'facts': facts}
 
 
